@@ -143,7 +143,12 @@ def parse_tlc(out):
 def run_tlc(ctx, name, spec):
     env = dict(os.environ)
     for k, v in spec.get("env", {}).items():
-        env[k] = ctx.art(v[4:]) if v.startswith("art:") else v
+        if v.startswith("art:"):
+            env[k] = ctx.art(v[4:])
+        elif v.startswith("alpha:"):
+            env[k] = ctx.art(v[6:]) + ".alpha.json"
+        else:
+            env[k] = v
     meta = os.path.join(WORK, "tlc", name)
     shutil.rmtree(meta, ignore_errors=True)
     os.makedirs(meta, exist_ok=True)
@@ -195,6 +200,8 @@ ARTEFACTS = {
     "g_set2": ["graph", "set2", "bytes", "60", "{out}", "{alpha}"],
     "g_kb1_bytes": ["graph", "kb1", "bytes", "60", "{out}", "{alpha}"],
     "g_kb2_bytes": ["graph", "kb2", "bytes", "60", "{out}", "{alpha}"],
+    "g_event": ["graph", "event", "events", "20000", "{out}", "{alpha}"],
+    "g_kb2_events": ["graph", "kb2", "kbevents", "20000", "{out}", "{alpha}"],
     "t_words": ["table", "words", "{out}"],
     "t_layouts": ["table", "layouts", "{out}"],
     "t_preds": ["table", "preds", "{out}"],
@@ -219,6 +226,13 @@ JOBS = {
                        env={"WORDS": "art:t_words", "GRAPH2": "art:g_set2"}),
     "conf_layouts": dict(kind="tlc", module="Conf_Layouts", cfg="Conf_Layouts.cfg", workers=8, heap="8g",
                          env={"TABLE": "art:t_layouts", "SOURCE": "impl"}, timeout=1200),
+    "conf_preds": dict(kind="tlc", module="Conf_Preds", cfg="Conf_Preds.cfg", workers=1,
+                       env={"PREDS": "art:t_preds"}),
+    "mc_event": dict(kind="tlc", module="MC_Event", cfg="MC_Event.cfg", workers=8, cont=False),
+    "conf_event": dict(kind="tlc", module="Conf_Event", cfg="Conf_Event.cfg", workers=8, heap="8g",
+                       env={"GRAPH": "art:g_event", "ALPHA": "alpha:g_event", "COMP": "event"}),
+    "conf_kb2_events": dict(kind="tlc", module="Conf_Event", cfg="Conf_Event.cfg", workers=8, heap="8g",
+                            env={"GRAPH": "art:g_kb2_events", "ALPHA": "alpha:g_kb2_events", "COMP": "kb2"}),
     "props_scan": dict(kind="tlc", module="Props_Scan", cfg="Props_Scan.cfg", workers=1,
                        env={"GRAPH1": "art:g_set1", "GRAPH2": "art:g_set2"}),
 }
@@ -237,7 +251,13 @@ PROPS = {
     "C03": dict(quick=["conf_layouts"], tables=["t_layouts"]),
     "C09": dict(quick=["conf_layouts"], tables=["t_layouts"]),
     "C10": dict(quick=["conf_layouts"], tables=["t_layouts"]),
-    "C11": dict(quick=["conf_layouts"], tables=["t_layouts"]),
+    "C11": dict(quick=["conf_layouts", "conf_preds"], tables=["t_layouts", "t_preds"]),
+    "C04": dict(quick=["mc_event", "conf_event", "conf_kb2_events"], graphs=["g_event", "g_kb2_events"]),
+    "C14": dict(quick=["mc_event", "conf_event", "conf_kb2_events"], graphs=["g_event", "g_kb2_events"]),
+    "C08": dict(quick=["mc_frame", "conf_frame", "conf_words", "conf_set1", "conf_set2", "conf_kb1_bytes",
+                       "conf_kb2_bytes", "conf_event", "conf_kb2_events", "conf_layouts"],
+                graphs=["g_frame", "g_set1", "g_set2", "g_kb1_bytes", "g_kb2_bytes", "g_event", "g_kb2_events"],
+                tables=["t_words", "t_layouts"]),
     "C12": dict(quick=["conf_layouts"], tables=["t_layouts"]),
     "C15": dict(quick=["conf_layouts"], tables=["t_layouts"]),
     "C16": dict(quick=["conf_layouts"], tables=["t_layouts"]),
@@ -261,6 +281,11 @@ def canon_key(rec):
         obs = rec.get("observed")
         obs_s = "/".join(str(x) for x in obs) if isinstance(obs, list) and obs and obs[0] != "panic" else "panic"
         return "io comp=%s ctx=%s input=%s observed=%s" % (rec.get("comp"), ctx_s, inp_s, obs_s)
+    if k in ("event-io", "getter", "mods-shown"):
+        return "%s comp=%s ctx=%s input=%s observed=%s query=%s" % (
+            k, rec.get("comp"), json.dumps(rec.get("ctx"), separators=(",", ":")),
+            json.dumps(rec.get("input"), separators=(",", ":")), json.dumps(rec.get("observed"), separators=(",", ":")),
+            json.dumps(rec.get("observed_query"), separators=(",", ":")))
     if k == "word":
         return "word comp=%s word=0x%03X observed=%s" % (rec.get("comp"), rec.get("word"), "/".join(map(str, rec.get("observed", []))))
     if k in ("xlate-forward",):
@@ -320,7 +345,9 @@ def write_replay(ctx, pid, n, rec, jobname):
     comp = rec.get("comp")
     # turn alphabet indices into concrete inputs so the replay is self-contained
     gname = {"frame": "g_frame", "set1": "g_set1", "set2": "g_set2", "kb1": "g_kb1_bytes",
-             "kb2": "g_kb2_bytes"}.get(comp)
+             "kb2": "g_kb2_bytes", "event": "g_event"}.get(comp)
+    if comp == "kb2" and rec.get("kind") in ("event-io", "getter", "mods-shown"):
+        gname = "g_kb2_events"
     gname = rec.get("graph", gname)
     if "access" in rec and gname in ARTEFACTS:
         try:
